@@ -28,7 +28,7 @@ def Ipts.unpack (t : Ipts) (buf : Bytes) : R Ipts :=
   match t with
   | .rtc _ =>
     match structUnpack RTC_unpack_fmt0 buf with
-    | .ok [lsw, msw, _] => .ok (.rtc (lsw + msw * 4294967296))
+    | .ok [lsw, msw, _] => .ok (.rtc (lsw + 4294967296 * msw))
     | .ok _ => .error .struct
     | .error e => .error e
   | .ptp _ _ =>
